@@ -392,6 +392,7 @@ class Gen:
         self.body_names: list[set[str]] = [set()]
         self.edges = 0
         self.n_ips = 0
+        self.pending_guards: list[str] = []
 
     def ref(self, rel: str) -> str:
         """How a file is named inside the source: relative, or absolute through the $ROOT$ token."""
@@ -701,6 +702,15 @@ class Gen:
                 text = "".join(rng.choice(chars) for _ in range(rng.randrange(1, 8)))
                 inner = [stmt(f".table '{self.ref(rel)}'", "table"), stmt(f".text '{text}'")] + inner + [stmt(f".text '{text}'")]
             return [block("{", inner, "block")]
+        if kind == "if" and depth == 0 and not in_lm and rng.random() < 0.2:
+            # include-guard idiom: the name tested here is only assigned further down, so it is undefined
+            # (false) at this point of the single code-generation pass
+            g = f"G{self.uid()}"
+            n = block(f".if {g} {{", [stmt(f".db {self.lit(8)}")], "if", assembled=False)
+            n["else_body"] = [stmt(f".db {self.lit(8)}, {self.lit(8)}")]
+            n["else_assembled"] = True
+            self.pending_guards.append(g)
+            return [n]
         if kind == "if":
             cond, taken = self.condition()
             n = block(f".if {cond} {{", self.body(depth + 1, in_lm, params, new_scope=False), "if", assembled=taken)
@@ -800,6 +810,8 @@ class Gen:
         if kind == "table":
             rel = f"{self.prefix}tbl{self.uid()}.tbl"
             chars = rng.sample("ABCDEFGHIJKLMNOPQRSTUVWXYZabcdefgh", rng.randrange(3, 12))
+            if rng.random() < 0.35:
+                chars += rng.sample(["\u00e9", "\u00e0", "\u00df", "\u3042", "\u65e5", "\u00f1"], 2)  # non-ASCII characters (UTF-8 source and table)
             lines = []
             for i, ch in enumerate(chars):
                 if rng.random() < 0.2:
@@ -876,6 +888,16 @@ class Gen:
                 for n in nodes:
                     self._note_assign(n)
                 root += nodes
+            while self.pending_guards:
+                root.append(stmt(f"{self.pending_guards.pop()} := 1"))
+            if self.assigned and "symbols" in f and rng.random() < 0.2:
+                # an assembly-time variable updated from its own value (must happen exactly once)
+                name = rng.choice([a for a in self.assigned if a not in self.small_assigned and a in self._assigned_values] or [None])
+                if name is not None:
+                    node = stmt(f"{name} := {name} + 1")
+                    self._note_assign(node)
+                    root.append(node)
+                    root.append(stmt(f".dl {name}"))
             if s == include_at:
                 rel = f"{self.prefix}inc{self.uid()}.s"
                 self.budget = 4
